@@ -1515,6 +1515,18 @@ fn decode_escapes(bytes: &[u8]) -> Result<String, JsonError> {
     Ok(result)
 }
 
+/// Verification hook: a `JsonString` positioned at `start` of `text` (no check that a quote is there).
+#[cfg(feature = "verif-hooks")]
+pub fn verif_string_at(text: &[u8], start: usize) -> JsonString<'_> {
+    JsonString { text, start }
+}
+
+/// Verification hook: `JsonString::find_string_end` for a string starting at `start`.
+#[cfg(feature = "verif-hooks")]
+pub fn verif_string_end(text: &[u8], start: usize) -> usize {
+    JsonString { text, start }.find_string_end()
+}
+
 /// Parse 4 hex digits into a u16.
 fn parse_hex4(hex: &[u8]) -> Result<u16, JsonError> {
     if hex.len() != 4 {
